@@ -904,7 +904,10 @@ where
 
         loop {
             tokio::select! {
-                _ = this.write_notify.notified() => {
+                // A queued command (ReplaceRange / Purge / Reset) must be applied to the store
+                // before anything is persisted from the already-modified memory: this arm and the
+                // timer arm are disabled while the command channel is non-empty.
+                _ = this.write_notify.notified(), if receiver.is_empty() => {
                     #[cfg(d_engine_verif)]
                     verif_arm_trace::record(b'n');
                     // Persist all entries written to SkipMap since last fsync.
@@ -1095,7 +1098,7 @@ where
                         }
                     }
                 }
-                _ = safety_timer.tick() => {
+                _ = safety_timer.tick(), if receiver.is_empty() => {
                     #[cfg(d_engine_verif)]
                     verif_arm_trace::record(b't');
                     // Safety-net: persist and fsync any entries not yet durable.
